@@ -22,9 +22,9 @@ def plan(ctx):
     k = P.per_interp_shards(ctx)
     for v in ctx.producers:
         if ctx.tier == "quick":
-            cases = P.corpus_cases(ctx, v, n_files=500, n_w3=200, modes=60, max_file_bytes=300000)
+            cases = P.corpus_cases(ctx, v, n_files=500, n_extra=60, n_w3=200, modes=60, max_file_bytes=300000)
         else:
-            cases = P.corpus_cases(ctx, v, all_files=True, n_w3=1500, modes=400)
+            cases = P.corpus_cases(ctx, v, all_files=True, all_extra=True, n_w3=1500, modes=400)
         shards.extend(P.split(ctx, v, cases, k, "C01:"))
     return shards
 
